@@ -1,4 +1,5 @@
 import AnyTLS.Model.Session
+import AnyTLS.Model.Auth
 import AnyTLS.Drv.Frame
 
 namespace AnyTLS.Drv
@@ -199,6 +200,43 @@ def preambleOp (toks : List String) : String :=
         let ws := preamble h s rs
         s!"ok w=[{joinSep "," (ws.map (fun w => toString w.length))}] bytes={hexOfBytes (flatten ws)}"
     | _, _, _ => "bad-op"
+  | _ => "bad-op"
+
+/-- `auth v|conn <exphex> <eof> <chunk>...` -/
+def authOp (toks : List String) : String :=
+  match toks with
+  | kind :: exp :: eof :: chunks =>
+    match bytesOfHex exp, allSome (chunks.map bytesOfHex) with
+    | some exp, some cs =>
+      let inp := flatten cs
+      let v := authServer exp inp
+      let verdict := match v with
+        | .accept _ => "accept"
+        | .reject => "reject"
+        | .needMore => if eof == "1" then "err-eof" else "more"
+      if kind == "v" then
+        let consumed := match v with
+          | .accept n => n
+          | .reject => 32
+          | .needMore => inp.length
+        s!"{verdict} consumed={consumed}"
+      else if kind == "conn" then
+        match v with
+        | .accept n =>
+          match Scheme.parse (asciiBytes "stop=0") with
+          | none => "bad-op"
+          | some sch =>
+            let s0 := { Sess.initServer sch "" 0 with hasCallback := true }
+            let rest := inp.drop n
+            let s1 := if rest.isEmpty then s0 else s0.feedBytes rest
+            let nd : MNode := { s := s1 }
+            let (nd, _) := nd.delta
+            match nodeOp nd ["state"] with
+            | some (_, o) => "accept " ++ ((o.splitOn " | ").headD "")
+            | none => "bad-op"
+        | _ => verdict ++ " nosession"
+      else "bad-op"
+    | _, _ => "bad-op"
   | _ => "bad-op"
 
 end AnyTLS.Drv
